@@ -329,11 +329,12 @@ where
         cx.call(e_enc("uint.ArrayEncoding.to_be_byte_array", &v, nb, "be"), || O::ok().b("bytes", &x.to_be_byte_array()[..]));
         cx.call(e_enc("uint.ArrayEncoding.to_le_byte_array", &v, nb, "le"), || O::ok().b("bytes", &x.to_le_byte_array()[..]));
         let src = bytes_of(&mut cx.rng, nb);
-        let a = ByteArray::<Uint<N>>::try_from(&src[..]).unwrap();
-        cx.call(e_dec("uint.ArrayEncoding.from_be_byte_array", &src, nb, "be"), || oy(&raw(&Uint::<N>::from_be_byte_array(a.clone()))));
-        cx.call(e_dec("uint.ArrayEncoding.from_le_byte_array", &src, nb, "le"), || oy(&raw(&Uint::<N>::from_le_byte_array(a.clone()))));
-        cx.call(e_dec("array.ArrayDecoding.into_uint_be", &src, nb, "be"), || oy(&raw(&a.clone().into_uint_be())));
-        cx.call(e_dec("array.ArrayDecoding.into_uint_le", &src, nb, "le"), || oy(&raw(&a.clone().into_uint_le())));
+        // the array is built inside the recorded call: a byte array type of the wrong size is an outcome, not a recorder crash
+        let arr = || ByteArray::<Uint<N>>::try_from(&src[..]).expect("ByteArray<Uint<N>> holds exactly 8 * N octets");
+        cx.call(e_dec("uint.ArrayEncoding.from_be_byte_array", &src, nb, "be"), || oy(&raw(&Uint::<N>::from_be_byte_array(arr()))));
+        cx.call(e_dec("uint.ArrayEncoding.from_le_byte_array", &src, nb, "le"), || oy(&raw(&Uint::<N>::from_le_byte_array(arr()))));
+        cx.call(e_dec("array.ArrayDecoding.into_uint_be", &src, nb, "be"), || oy(&raw(&arr().into_uint_be())));
+        cx.call(e_dec("array.ArrayDecoding.into_uint_le", &src, nb, "le"), || oy(&raw(&arr().into_uint_le())));
     }
 }
 
